@@ -7,6 +7,7 @@ import (
 	"math"
 	"strconv"
 	"strings"
+	"sync"
 
 	"github.com/trustbloc/sidetree-go/pkg/canonicalizer"
 
@@ -73,6 +74,10 @@ func canon(c *fw.Case, in []byte) ([]byte, error) {
 func runC05(r *fw.Runner) {
 	if err := c05SelfTest(); err != nil {
 		panic("SELFTEST " + err.Error())
+	}
+	// the canonical form of a value does not depend on what other goroutines canonicalize at the same moment
+	for b := 0; b < r.N(1, 3); b++ {
+		r.Case("canonicalized-from-many-goroutines", func(c *fw.Case) { c05Concurrent(c) })
 	}
 	// (d) fixed vectors against the code under test
 	r.Case("rfc8785-vectors", func(c *fw.Case) {
@@ -360,5 +365,69 @@ func c05OneNumber(c *fw.Case, f float64, class string) {
 	if cerr != nil || string(out) != "["+want+"]" {
 		c.Failf("number-format", map[string]interface{}{"double_bits": fmt.Sprintf("%016x", math.Float64bits(f)), "spelling": sp, "expected": want, "got": string(out), "err": fmt.Sprint(cerr), "class": class},
 			"number %s canonicalized to %s, ES6 says %s", sp, out, want)
+	}
+}
+
+// c05Concurrent: 16 goroutines canonicalize their own values (Go values and raw bytes) at once; every result is the reference form.
+func c05Concurrent(c *fw.Case) {
+	r := c.Rng
+	const G, per = 16, 40
+	type job struct {
+		v    interface{}
+		raw  []byte
+		want string
+	}
+	jobs := make([][]job, G)
+	for g := 0; g < G; g++ {
+		for i := 0; i < per; i++ {
+			v := gen.RandObject(r, 2)
+			v["goroutine"], v["i"] = g, i
+			v["pad"] = strings.Repeat(string(rune('a'+g)), r.Range(10, 3000))
+			j := job{v: v, want: string(oracle.MustJCS(v))}
+			if i%2 == 1 {
+				j.raw = gen.Spell(r, oracle.MustGeneric(v), gen.AllSpell)
+				j.v = nil
+			}
+			jobs[g] = append(jobs[g], j)
+		}
+	}
+	var mu sync.Mutex
+	var bad []string
+	var wg sync.WaitGroup
+	for g := 0; g < G; g++ {
+		wg.Add(1)
+		go func(g int) {
+			defer wg.Done()
+			defer func() {
+				if p := recover(); p != nil {
+					mu.Lock()
+					bad = append(bad, fmt.Sprintf("panic: %v", p))
+					mu.Unlock()
+				}
+			}()
+			for round := 0; round < 3; round++ {
+				for _, j := range jobs[g] {
+					var out []byte
+					var err error
+					if j.raw != nil {
+						out, err = canonicalizer.MarshalCanonical(j.raw)
+					} else {
+						out, err = canonicalizer.MarshalCanonical(j.v)
+					}
+					if err != nil || string(out) != j.want {
+						mu.Lock()
+						bad = append(bad, fmt.Sprintf("err=%v got=%.120s want=%.120s", err, out, j.want))
+						mu.Unlock()
+					}
+				}
+			}
+		}(g)
+	}
+	wg.Wait()
+	c.Count("concurrent-canonicalizations", G*per*3)
+	c.Evals(G * per * 3)
+	c.Sig("concurrent")
+	if len(bad) > 0 {
+		c.Failf("wrong-canonical-form-under-concurrent-use", map[string]interface{}{"failures": len(bad), "first": bad[0], "goroutines": G}, "%d of %d canonicalizations made by %d goroutines at once are wrong: %s", len(bad), G*per*3, G, bad[0])
 	}
 }
